@@ -6,6 +6,7 @@ replayed = False : the native run contradicts R's extraction (encoder slip -> in
 replayed = None  : could not be replayed natively
 """
 import json
+from fractions import Fraction
 import os
 import subprocess
 
@@ -26,7 +27,7 @@ def build(profile="release"):
     cmd = ["cargo", "build", "--offline", "--target-dir", tdir]
     if profile == "release":
         cmd.append("--release")
-    p = subprocess.run(cmd, cwd=os.path.join(VERIF, "replay"), stdout=subprocess.PIPE, stderr=subprocess.STDOUT, text=True, env=ENV)
+    p = subprocess.run(cmd, cwd=os.environ.get("VERIF_REPLAY_CRATE", os.path.join(VERIF, "replay")), stdout=subprocess.PIPE, stderr=subprocess.STDOUT, text=True, env=ENV)
     if p.returncode != 0:
         raise RuntimeError("replay crate did not build:\n" + p.stdout[-1500:])
     exe = os.path.join(tdir, "release" if profile == "release" else "debug", "probe")
@@ -393,3 +394,184 @@ def bdf_replay(backward, failed):
             return True, f"probe bdf {x0!r} {xend!r} {h0!r} {ms!r} {mxs} {flags} {nmi} {rtol!r} {nan_at}   (real BDF, y'=cos t + y/2, scripted callback; /verif/replay/src/main.rs)", "\n".join(log)
     log.append(f"{n} native BDF runs: no native violation of kind {sorted(want) if want else 'any'}")
     return None, "native BDF battery (rsym/replay.py bdf_battery)", "\n".join(log)
+
+
+def _zval(m, v):
+    """float of a z3 model value (rational or algebraic)."""
+    import z3
+    r = m.eval(v, model_completion=True)
+    if z3.is_rational_value(r):
+        return float(Fraction(r.numerator_as_long(), r.denominator_as_long()))
+    if z3.is_algebraic_value(r):
+        return float(r.approx(30).as_decimal(40).rstrip("?"))
+    return float(str(r))
+
+
+def accept_replay(method, n, err_form, values):
+    """Native confirmation of an acceptance-contract violation: the real method takes its first
+    trial step with the model's stage values; violated natively iff that trial is accepted and the
+    error estimate h*sum(e_j k_j) exceeds sqrt(n)(atol_i + rtol_i max(|y_i|, |y_new_i|)) for a component."""
+    import math
+    x0, h, y0, rt, at, ks = values["x0"], values["h"], values["y0"], values["rtol"], values["atol"], values["k"]
+    sv = lambda v: ";".join(repr(float(c)) for c in v)
+    args = ["accept", method, repr(x0), repr(h), sv(y0), sv(rt), sv(at), ",".join(sv(k) for k in ks)]
+    src = "probe " + " ".join(args) + "   (real solver, first trial step with the solver model's stage values)"
+    try:
+        d = probe(args, timeout=20)
+    except Exception as e:
+        return None, src, f"probe failed: {str(e)[:200]}"
+    cbs = d["callbacks"]
+    log = [f"callbacks: {cbs}", f"right-hand-side calls: {d['ncalls']}"]
+    if len(cbs) < 2 or float(cbs[1]["xold"]) != x0 or abs(float(cbs[1]["x"]) - (x0 + h)) > 1e-12 * (abs(x0) + abs(h)):
+        log.append("the first trial step was not accepted natively")
+        return None, src, "\n".join(log)
+    ynew = [float(v) for v in cbs[1]["y"]]
+    for i in range(n):
+        ye = h * sum(float(err_form[j]) * ks[j][i] for j in range(min(len(err_form), len(ks))))
+        rti, ati = (rt[0], at[0]) if len(rt) == 1 else (rt[i], at[i])
+        bound = math.sqrt(n) * (ati + rti * max(abs(y0[i]), abs(ynew[i])))
+        log.append(f"component {i}: |error estimate| = {abs(ye)!r}, sqrt(n)(atol + rtol max(|y|,|y_new|)) = {bound!r}, y_new = {ynew[i]!r}")
+        if abs(ye) > bound * (1 + 1e-6):
+            log.append("accepted natively although the error estimate exceeds the bound")
+            return True, src, "\n".join(log)
+    return None, src, "\n".join(log)
+
+
+def lookup_replay(n_seg, backward, failed):
+    """Native confirmation for the segment-lookup facts (C20 sol clause): the real ContinuousOutput built through the
+    verif-hooks forwarder, strict vs extrapolating lookup, on the solver model's segments and on a boundary battery."""
+    import math
+    d = -1.0 if backward else 1.0
+    cands = []
+    for f in failed[:6]:
+        m = f[2] if len(f) > 2 and isinstance(f[2], dict) else {}
+        try:
+            x0 = float(Fraction(m["x0"])) if "x0" in m else 0.0
+            hs = [float(Fraction(m[f"h{k}"])) for k in range(n_seg)]
+            if abs(x0) <= 1e7 and all(abs(h) <= 1e7 for h in hs):   # (model excerpts are truncated strings: ignore garbage)
+                cands.append((x0, hs, [float(Fraction(m["t"]))] if "t" in m else []))
+        except Exception:
+            pass
+    cands += [(0.0, [d * 0.5, d * 0.25, d * 0.125][:n_seg], []), (3.0, [d * 1e-3, d * 2e-3, d * 1e-3][:n_seg], []), (-7.25, [d * 1.5, d * 0.75, d * 3.0][:n_seg], [])]
+    log = []
+    n = 0
+    for x0, hs, ts in cands:
+        xs = [x0]
+        for h in hs:
+            xs.append(xs[-1] + h)
+        tt = list(ts)
+        for i, xb in enumerate(xs):
+            for off in (0.0, 1e-12, -1e-12, 0.999e-12, -0.999e-12, 1.001e-12, -1.001e-12, 3e-12, -3e-12):
+                tt.append(xb + off)
+            tt += [math.nextafter(xb, math.inf), math.nextafter(xb, -math.inf)]
+        for a, b in zip(xs, xs[1:]):
+            tt += [a + 0.5 * (b - a), a + 0.25 * (b - a), a + 0.9 * (b - a)]
+        lo, hi = min(xs), max(xs)
+        tt += [lo - 1.0, hi + 1.0, lo - 1e-9, hi + 1e-9]
+        try:
+            r = probe(["lookup", repr(x0), ",".join(repr(h) for h in hs), ",".join(repr(t) for t in tt)], timeout=20)
+        except Exception as e:
+            log.append(f"probe failed: {str(e)[:150]}")
+            continue
+        nx = [float(v) for v in r["xs"]]
+        for t, (st, ex) in zip(tt, r["results"]):
+            n += 1
+            bad = None
+            if ex is None:
+                bad = "the extrapolating lookup returns nothing although segments exist"
+            elif st is not None and st != ex:
+                bad = f"inside the covered span the extrapolating lookup uses segment {ex}, Solution::sol uses segment {st}"
+            elif st is None and lo <= t <= hi:
+                bad = "the strict lookup fails for a time inside the covered span"
+            elif ex is not None and lo <= t <= hi:
+                a, b = nx[ex], nx[ex + 1]
+                if not (min(a, b) - 2.1e-12 <= t <= max(a, b) + 2.1e-12):
+                    bad = f"for t inside the covered span the extrapolating lookup evaluates segment {ex} = [{a!r},{b!r}] which does not contain it"
+            if bad:
+                src = f"probe lookup {x0!r} {','.join(repr(h) for h in hs)} {t!r}   (real ContinuousOutput via verif-hooks; strict vs extrapolating lookup)"
+                log.append(f"native violation at t={t!r}: {bad}")
+                log.append(f"after {n} native lookups")
+                return True, src, "\n".join(log)
+    log.append(f"{n} native lookups: no native violation")
+    return None, "probe lookup battery (rsym/replay.py lookup_replay)", "\n".join(log)
+
+
+def radau_mass_replay():
+    """Native: Radau on M y' = A y (non-symmetric M, Full mass storage) against Radau on y' = M^-1 A y."""
+    try:
+        d = probe(["radaumass"], timeout=60)
+    except Exception as e:
+        return None, "probe radaumass", f"probe failed: {str(e)[:200]}"
+    a, b = d["runs"]
+    ya, yb = [float(v) for v in a["y"]], [float(v) for v in b["y"]]
+    log = [f"M y' = A y: {a}", f"y' = M^-1 A y: {b}"]
+    if len(ya) != len(yb) or any(abs(p - q) > 1e-6 for p, q in zip(ya, yb)):
+        log.append("the two formulations of the same problem disagree far beyond the tolerance (rtol 1e-9)")
+        return True, "probe radaumass   (real RADAU, M = [[2,1],[0,1]], A = [[-1,.5],[.25,-2]], y0 = (1,-.5), [0,1])", "\n".join(log)
+    return None, "probe radaumass", "\n".join(log)
+
+
+def optindep_replay():
+    """Native: solve_ivp with the default step budget on runs of 250 001 accepted steps, with and without dense_output / t_eval:
+    status, accepted steps and the final sample must not depend on the output options."""
+    try:
+        d = probe(["optindep"], timeout=120)
+    except Exception as e:
+        return None, "probe optindep", f"probe failed: {str(e)[:200]}"
+    by = {}
+    for r in d:
+        by.setdefault(r["method"], []).append(r)
+    for m, rows in by.items():
+        ref = rows[0]
+        for r in rows[1:]:
+            if any(r[k] != ref[k] for k in ("status", "naccpt", "last_t", "last_y")):
+                return True, "probe optindep   (solve_ivp, y' = -y on [0,1], 250001 steps, default max_steps)", f"{m}: {ref}\nvs {r}"
+    return None, "probe optindep", json.dumps(d)[:600]
+
+
+def head_replay(failed):
+    kinds = " ".join(f[0] for f in failed)
+    if "configured differently" in kinds or "builder" in kinds:
+        r = optindep_replay()
+        if r[0]:
+            return r
+    r1 = first_step_replay()
+    if r1[0]:
+        return r1
+    return optindep_replay() if not ("configured differently" in kinds) else (None, "probe optindep / firststep", "no native violation")
+
+
+def radau_replay(backward, failed):
+    """Native confirmation for the Radau units: the real RADAU on scripted right-hand sides (constant -> every trial
+    accepted; wild -> Newton failure / rejection) over a battery of (x0, xend, first_step, max_step) incl. first_step >=
+    the interval and max_step larger than it; facts re-judged on the native trace (replay_script.judge)."""
+    from . import replay_script as RS
+    want = _bdf_kinds(failed) if failed else None
+    spans = [(0.0, 1.0), (3.0, 3.75), (-1.0, 0.5), (0.0, 1e-9)]
+    if backward:
+        spans = [(b, a) for a, b in spans]
+    log = []
+    n = 0
+    for (x0, xend) in spans:
+        span = abs(xend - x0)
+        for h0 in (span / 3, span, 2.5 * span, span / 1.0001, None):
+            for ms in (None, 1e9, span / 2.5):
+                if ms is not None and h0 is not None and ms < span and h0 > ms:
+                    continue
+                for pat in ("A", "AAA", "RA", "ARA"):
+                    for fl in ("C", "CM", "CI", "CCM", "M", "I", "CX"):
+                        cfg = (x0, xend, h0, ms, 100000, pat, fl)
+                        try:
+                            d = probe(["script", "RADAU", repr(x0), repr(xend), "none" if h0 is None else repr(h0), "none" if ms is None else repr(ms), 100000, pat, fl, 3, 1], timeout=20)
+                        except Exception as e:
+                            log.append(f"probe failed for {cfg}: {str(e)[:100]}")
+                            continue
+                        n += 1
+                        bad = [b for b in RS.judge("RADAU", cfg, d) if want is None or b[0] in want]
+                        if bad:
+                            k, desc = bad[0]
+                            log.append(f"native violation [{k}] {desc}")
+                            log.append(f"after {n} native runs")
+                            return True, f"probe script RADAU {x0!r} {xend!r} {h0!r} {ms!r} 100000 {pat} {fl} 3 1   (real RADAU, scripted right-hand side / callback; /verif/replay/src/main.rs)", "\n".join(log)
+    log.append(f"{n} native RADAU runs: no native violation of kind {sorted(want) if want else 'any'}")
+    return None, "native RADAU battery (rsym/replay.py radau_replay)", "\n".join(log)
